@@ -28,6 +28,24 @@ def stable_names(limit=None):
     return out
 
 
+ALIASES = ['LINE FEED', 'NULL', 'ESCAPE', 'NO-BREAK SPACE', 'BYTE ORDER MARK', 'LATIN CAPITAL LETTER GHA', 'NEXT LINE', 'CHARACTER TABULATION', 'LF', 'NBSP', 'ZWNBSP', 'BOM', 'ZWJ']
+_ALL_NAMES = {}
+
+
+def all_names():
+    """every character name of this interpreter's Unicode database (names are never changed or removed by later versions)"""
+    if not _ALL_NAMES:
+        out = []
+        for cp in range(0x110000):
+            try:
+                out.append(unicodedata.name(chr(cp)))
+            except ValueError:
+                pass
+        _ALL_NAMES['all'] = out
+        _ALL_NAMES['by_len'] = sorted(out, key=lambda n: (len(n), n))
+    return _ALL_NAMES
+
+
 class FakeGen:
     """minimal stand-in for PyGen when only literal generators are needed"""
     fstrings = False
@@ -109,7 +127,25 @@ class C06(Property):
             yield {'src': s}
 
     def gen(self, cs, ctx):
-        k = cs.weighted([150, 106])
+        k = cs.weighted([150, 106, 40])
+        if k == 2:
+            # \N{name} over every plane: the name of a random named code point, the shortest and longest names, name aliases;
+            # in any letter case, in text and f-string literals, alone or between other pieces
+            names = all_names()
+            j = cs.choice(8)
+            if j == 0:
+                n = names['by_len'][cs.choice(40)]
+            elif j == 1:
+                n = names['by_len'][-1 - cs.choice(40)]
+            elif j == 2:
+                n = cs.pick(ALIASES)
+            else:
+                n = names['all'][cs.choice(len(names['all']))]
+            form = cs.choice(4)
+            n = n.lower() if form == 1 else (''.join(c.lower() if cs.bool() else c for c in n) if form == 2 else n)
+            q = cs.pick(["'", '"', "'''", '"""'])
+            pre, post = cs.pick(['', 'a', '\\n', 'é']), cs.pick(['', 'z', '\\x41', '{{' if False else ''])
+            return {'src': '%s%s%s\\N{%s}%s%s' % (cs.pick(['', 'u', 'U', 'f', 'F']), q, pre, n, post, q)}
         if k == 0:
             g = FakeGen()
             toks = literals.gen_string_concat(cs, g, no_f=True)
